@@ -363,7 +363,7 @@ fn rec_pat(rng: &mut Rng, names: &mut Vec<String>, n: &mut usize) -> String {
 
 fn sh_pat(rng: &mut Rng, names: &mut Vec<String>, n: &mut usize) -> String {
   let sub = rec_pat(rng, names, n);
-  match rng.below(5) {
+  match rng.below(6) {
     0 => format!("Dot({sub})"),
     1 => format!("Dot({sub}) | Mark({sub})"),
     2 => {
@@ -373,6 +373,7 @@ fn sh_pat(rng: &mut Rng, names: &mut Vec<String>, n: &mut usize) -> String {
       format!("Two({sub}, {k}) | Duo({sub}, {k})")
     }
     3 => format!("Two({sub}, _)"),
+    4 => format!("Two({sub}, _) | Duo({sub}, _)"),
     _ => format!("Mark({sub}) | Dot({sub})"),
   }
 }
@@ -536,6 +537,17 @@ pub fn pattern_faults(text: &str, rng: &mut Rng) -> Vec<(&'static str, String)> 
     }
     let at = places[rng.below(places.len())];
     out.push((*op, format!("{}{}{}", &text[..at], to, &text[at + from.len()..])));
+  }
+  // or-patterns: a later / the first alternative binds one more name (the parameter `c`, so the
+  // name itself resolves), or a different name than the other alternative
+  let ors: Vec<usize> = text.match_indices(", _) | Duo(").map(|(i, _)| i).collect();
+  if !ors.is_empty() {
+    let at = ors[rng.below(ors.len())];
+    out.push(("or-pattern-first-alternative-binds-extra-name", format!("{}, c) | Duo({}", &text[..at], &text[at + ", _) | Duo(".len()..])));
+    if let Some(rel) = text[at + 4..].find(", _)") {
+      let q = at + 4 + rel;
+      out.push(("or-pattern-later-alternative-binds-extra-name", format!("{}, c){}", &text[..q], &text[q + ", _)".len()..])));
+    }
   }
   out
 }
